@@ -223,6 +223,13 @@ Exec(st, op) ==
          Out(st, [op |-> "WOp", k |-> "count", s |-> 1, n |-> Cardinality(st.mask), b |-> st.mask = {}])
     [] op.o = "setemit" ->
          Out([st EXCEPT !.emit = op.b], [op |-> "WOp", k |-> "setemit", s |-> 1, b |-> op.b])
+    [] op.o = "slice" ->       \* SliceAccess::as_slice (vec / dense / defvec): the raw slot view
+         CASE Kind = "vec" ->
+                LET ids == SeqOfSet({i \in st.mask : i \notin st.dead}) IN
+                Out(st, [op |-> "WOp", k |-> "slice", s |-> 1, kind |-> "vec",
+                         items |-> [j \in 1..Len(ids) |-> <<ids[j], IF ids[j] < st.vlen THEN st.slots[ids[j]][2] ELSE <<0 - 2>> >>]])
+           [] Kind = "dense" -> Out(st, [op |-> "WOp", k |-> "slice", s |-> 1, kind |-> "dense", vals |-> st.data])
+           [] Kind = "defvec" -> Out(st, [op |-> "WOp", k |-> "slice", s |-> 1, kind |-> "defvec", vals |-> st.dv])
 
 \* ------------------------------------------------------------- faults (C19)
 \* The k-th destructor call of a destroying operation panics; the rest of the
